@@ -164,6 +164,9 @@ def _remap(node, mapping):
             for c in x.get("captures", []):
                 if c.get("did") in mapping:
                     c["did"] = mapping[c["did"]]
+            for p_ in x.get("params", []) or []:
+                if isinstance(p_, dict) and p_.get("did") in mapping:
+                    p_["did"] = mapping[p_["did"]]
         if isinstance(x.get("decls"), list):
             for d in x["decls"]:
                 if isinstance(d, dict) and d.get("did") in mapping:
